@@ -44,6 +44,9 @@ func setCloneChooser(m interface{}, c func(keys []string) []int) {
 // HookCalls returns the number of Order invocations so far.
 func HookCalls() uint64 { return verifhook.Calls }
 
+// SetBlockFn installs the callback invoked while an instrumented lock cannot be taken (points build).
+func SetBlockFn(f func(label string)) { verifhook.BlockFn = f }
+
 // SetPointFn installs the yield-point callback (C09 build).
 func SetPointFn(f func(label string)) { verifhook.PointFn = f }
 
